@@ -12,7 +12,7 @@
 //!
 //! dns case = {"id", "cfg": {"kind":"dns","v6"}, "ops": [op..]}
 //! op = ["name", i] | ["lit", "addr"] | ["litstr", "addr"] | ["rev", "addr"] | ["re", "pattern"]
-//!    | ["host", i] | ["bulk", start, count, [probe..]]
+//!    | ["host", i] | ["bulk", start, count, [probe..]] | ["lookup_many_times", i, n]
 
 use serde_json::{json, Value};
 use std::cell::RefCell;
@@ -338,6 +338,14 @@ fn run_dns(case: &Value) -> Value {
                 let name = format!("n{}", op[1].as_u64().unwrap());
                 sim.host(name.clone(), || async { Ok(()) });
                 json!([sim.lookup(name).to_string()])
+            }
+            "lookup_many_times" => {
+                let name = format!("n{}", op[1].as_u64().unwrap());
+                let mut last = sim.lookup(name.clone());
+                for _ in 1..op[2].as_u64().unwrap() {
+                    last = sim.lookup(name.clone());
+                }
+                json!([last.to_string()])
             }
             "bulk" => {
                 let start = op[1].as_u64().unwrap();
